@@ -62,6 +62,9 @@ func main() {
 		n3 += n
 	}
 	fmt.Printf("instr: %d package-level variables exposed for snapshots\n", n3)
+	for _, pkg := range []string{"parser", "symtable", "compile"} {
+		fmt.Printf("instr: %s: package-level variables written at run time: %v\n", pkg, writtenNames[pkg])
+	}
 	b, _ := json.MarshalIndent(map[string]interface{}{"Replace": overlay}, "", " ")
 	os.WriteFile(filepath.Join(*out, "overlay.json"), b, 0o644)
 	fmt.Printf("instr: %d lifecycle yield points, %d controlled map loops\n", n1, n2)
@@ -159,6 +162,8 @@ func instrLifecycle(repo, out string, overlay map[string]string) (int, error) {
 			fmt.Fprintf(&b, "\ts += fmt.Sprintf(\"%s=%%d \", ctx.%s.State())\n", fl.name, fl.name)
 		case "sync.Mutex":
 			fmt.Fprintf(&b, "\ts += fmt.Sprintf(\"%s=%%v \", ctx.%s.Held())\n", fl.name, fl.name)
+		case "sync.RWMutex":
+			fmt.Fprintf(&b, "\ts += fmt.Sprintf(\"%s=%%s \", ctx.%s.State())\n", fl.name, fl.name)
 		case "chan struct{}":
 			fmt.Fprintf(&b, "\tselect {\n\tcase <-ctx.%s:\n\t\ts += \"%s=closed \"\n\tdefault:\n\t\ts += \"%s=open \"\n\t}\n", fl.name, fl.name, fl.name)
 		default:
@@ -357,8 +362,18 @@ func instrMapOrder(repo, pkg, out string, overlay map[string]string) (int, error
 		files = append(files, p.Files[n])
 	}
 	conf := types.Config{Importer: importer.ForCompiler(fset, "source", nil), Error: func(err error) {}}
-	info := &types.Info{Types: map[ast.Expr]types.TypeAndValue{}}
-	conf.Check("github.com/go-python/gpython/"+pkg, fset, files, info)
+	info := &types.Info{Types: map[ast.Expr]types.TypeAndValue{}, Uses: map[*ast.Ident]types.Object{}, Defs: map[*ast.Ident]types.Object{}}
+	tpkg, _ := conf.Check("github.com/go-python/gpython/"+pkg, fset, files, info)
+	var written map[types.Object]bool
+	if accessPkgs[pkg] && tpkg != nil {
+		written = writtenVars(tpkg, files, info)
+		var ns []string
+		for o := range written {
+			ns = append(ns, o.Name())
+		}
+		sort.Strings(ns)
+		writtenNames[pkg] = ns
+	}
 	count := 0
 	for _, f := range files {
 		changed := 0
@@ -419,8 +434,11 @@ func instrMapOrder(repo, pkg, out string, overlay map[string]string) (int, error
 			return true
 		})
 		entries := 0
+		if len(written) > 0 {
+			entries += instrAccesses(f, pkg, info, written)
+		}
 		if entryPkgs[pkg] {
-			entries = instrEntries(f, pkg)
+			entries += instrEntries(f, pkg)
 		}
 		if changed == 0 && entries == 0 {
 			continue
@@ -482,10 +500,277 @@ func genGlobals(repo, pkg, out string, overlay map[string]string) (int, error) {
 		fmt.Fprintf(&b, "\tm[%q] = fmt.Sprintf(\"%%#v\", %s)\n", n, n)
 	}
 	b.WriteString("\t_ = fmt.Sprint\n\treturn m\n}\n")
+	// the package-level variables that are written at run time (see accessPkgs): their addresses,
+	// so that an exploration can put them back to their start-of-process values before every execution
+	b.WriteString("\n// VerifRuntimeVars returns the names and addresses of the package-level variables some function writes at run time.\nfunc VerifRuntimeVars() ([]string, []interface{}) {\n\tvar ns []string\n\tvar ps []interface{}\n")
+	for _, n := range writtenNames[pkg] {
+		fmt.Fprintf(&b, "\tns = append(ns, %q)\n\tps = append(ps, &%s)\n", pkg+"."+n, n)
+	}
+	b.WriteString("\treturn ns, ps\n}\n")
 	dst := filepath.Join(out, pkg+"_verif_globals.go")
 	os.WriteFile(dst, []byte(b.String()), 0o644)
 	overlay[filepath.Join(dir, "verif_globals_ov.go")] = dst
 	return len(names), nil
+}
+
+// ---------- (4) accesses of package-level variables that are written at run time ----------
+
+// accessPkgs: packages in which every statement that reads or writes a package-level variable
+// which some function other than init() writes (assigns, increments, takes the address of,
+// deletes from / copies into, slices as an array, or calls a method of when it is a sync or
+// atomic value) is preceded by a scheduling point, so that concurrent compilations are
+// interleaved at the granularity of their accesses to shared state. On a tree whose compiler
+// keeps no run-time state the set is empty and nothing is inserted.
+var accessPkgs = map[string]bool{"parser": true, "symtable": true, "compile": true}
+
+var writtenNames = map[string][]string{}
+
+func rootObj(e ast.Expr, info *types.Info) types.Object {
+	for {
+		switch x := e.(type) {
+		case *ast.Ident:
+			return info.Uses[x]
+		case *ast.ParenExpr:
+			e = x.X
+		case *ast.IndexExpr:
+			e = x.X
+		case *ast.SliceExpr:
+			e = x.X
+		case *ast.StarExpr:
+			e = x.X
+		case *ast.TypeAssertExpr:
+			e = x.X
+		case *ast.SelectorExpr:
+			if id, ok := x.X.(*ast.Ident); ok {
+				if _, isPkg := info.Uses[id].(*types.PkgName); isPkg {
+					return nil // a variable of another package
+				}
+			}
+			e = x.X
+		default:
+			return nil
+		}
+	}
+}
+
+func isPkgVar(o types.Object, tpkg *types.Package) bool {
+	v, ok := o.(*types.Var)
+	return ok && !v.IsField() && v.Parent() == tpkg.Scope()
+}
+
+func syncTyped(t types.Type) bool {
+	if p, ok := t.(*types.Pointer); ok {
+		t = p.Elem()
+	}
+	if n, ok := t.(*types.Named); ok && n.Obj().Pkg() != nil {
+		pp := n.Obj().Pkg().Path()
+		return pp == "sync" || pp == "sync/atomic"
+	}
+	return false
+}
+
+// isSetter: an exported function whose whole body assigns its parameters to variables (a
+// configuration switch such as parser.SetDebug, which no compilation calls).
+func isSetter(fd *ast.FuncDecl) bool {
+	if fd.Recv != nil || !fd.Name.IsExported() || len(fd.Body.List) != 1 || fd.Type.Params == nil {
+		return false
+	}
+	as, ok := fd.Body.List[0].(*ast.AssignStmt)
+	if !ok || as.Tok != token.ASSIGN {
+		return false
+	}
+	params := map[string]bool{}
+	for _, p := range fd.Type.Params.List {
+		for _, n := range p.Names {
+			params[n.Name] = true
+		}
+	}
+	for _, r := range as.Rhs {
+		id, ok := r.(*ast.Ident)
+		if !ok || !params[id.Name] {
+			return false
+		}
+	}
+	return true
+}
+
+func writtenVars(tpkg *types.Package, files []*ast.File, info *types.Info) map[types.Object]bool {
+	w := map[types.Object]bool{}
+	mark := func(e ast.Expr) {
+		if o := rootObj(e, info); o != nil && isPkgVar(o, tpkg) {
+			w[o] = true
+		}
+	}
+	for _, f := range files {
+		for _, d := range f.Decls {
+			fd, ok := d.(*ast.FuncDecl)
+			if !ok || fd.Body == nil || (fd.Recv == nil && fd.Name.Name == "init") || isSetter(fd) {
+				continue
+			}
+			ast.Inspect(fd.Body, func(n ast.Node) bool {
+				switch x := n.(type) {
+				case *ast.AssignStmt:
+					for _, l := range x.Lhs {
+						mark(l)
+					}
+				case *ast.IncDecStmt:
+					mark(x.X)
+				case *ast.RangeStmt:
+					if x.Tok == token.ASSIGN {
+						if x.Key != nil {
+							mark(x.Key)
+						}
+						if x.Value != nil {
+							mark(x.Value)
+						}
+					}
+				case *ast.UnaryExpr:
+					if x.Op == token.AND {
+						mark(x.X)
+					}
+				case *ast.SliceExpr:
+					if tv, ok := info.Types[x.X]; ok {
+						if _, isArr := tv.Type.Underlying().(*types.Array); isArr {
+							mark(x.X)
+						}
+					}
+				case *ast.CallExpr:
+					if id, ok := x.Fun.(*ast.Ident); ok && len(x.Args) > 0 {
+						if _, isB := info.Uses[id].(*types.Builtin); isB && (id.Name == "delete" || id.Name == "copy" || id.Name == "clear") {
+							mark(x.Args[0])
+						}
+					}
+					if sel, ok := x.Fun.(*ast.SelectorExpr); ok {
+						if tv, ok := info.Types[sel.X]; ok && syncTyped(tv.Type) {
+							mark(sel.X)
+						}
+					}
+				}
+				return true
+			})
+		}
+	}
+	return w
+}
+
+// mentioned returns the name of a run-time-written package-level variable that the nodes mention
+// (closure bodies excluded: their statements are instrumented on their own).
+func mentioned(info *types.Info, written map[types.Object]bool, nodes ...ast.Node) string {
+	found := ""
+	for _, n := range nodes {
+		if n == nil || found != "" {
+			continue
+		}
+		// a typed nil inside the interface
+		switch v := n.(type) {
+		case ast.Expr:
+			if v == nil {
+				continue
+			}
+		case ast.Stmt:
+			if v == nil {
+				continue
+			}
+		}
+		ast.Inspect(n, func(m ast.Node) bool {
+			if found != "" {
+				return false
+			}
+			switch y := m.(type) {
+			case *ast.FuncLit:
+				return false
+			case *ast.Ident:
+				if o := info.Uses[y]; o != nil && written[o] {
+					found = o.Name()
+				}
+			}
+			return true
+		})
+	}
+	return found
+}
+
+func accessHeader(s ast.Stmt, info *types.Info, written map[types.Object]bool) string {
+	switch x := s.(type) {
+	case *ast.LabeledStmt:
+		return accessHeader(x.Stmt, info, written)
+	case *ast.IfStmt:
+		var init ast.Node
+		if x.Init != nil {
+			init = x.Init
+		}
+		return mentioned(info, written, init, x.Cond)
+	case *ast.ForStmt:
+		var a, b, c ast.Node
+		if x.Init != nil {
+			a = x.Init
+		}
+		if x.Cond != nil {
+			b = x.Cond
+		}
+		if x.Post != nil {
+			c = x.Post
+		}
+		return mentioned(info, written, a, b, c)
+	case *ast.RangeStmt:
+		return mentioned(info, written, x.X)
+	case *ast.SwitchStmt:
+		var a, b ast.Node
+		if x.Init != nil {
+			a = x.Init
+		}
+		if x.Tag != nil {
+			b = x.Tag
+		}
+		return mentioned(info, written, a, b)
+	case *ast.TypeSwitchStmt:
+		var a ast.Node
+		if x.Init != nil {
+			a = x.Init
+		}
+		return mentioned(info, written, a, x.Assign)
+	case *ast.BlockStmt, *ast.SelectStmt, *ast.EmptyStmt, *ast.BranchStmt:
+		return ""
+	case *ast.DeclStmt, *ast.AssignStmt, *ast.IncDecStmt, *ast.ExprStmt, *ast.ReturnStmt, *ast.SendStmt, *ast.GoStmt, *ast.DeferStmt:
+		return mentioned(info, written, s)
+	}
+	return ""
+}
+
+func instrAccesses(f *ast.File, pkg string, info *types.Info, written map[types.Object]bool) int {
+	n := 0
+	fix := func(list []ast.Stmt) []ast.Stmt {
+		var out []ast.Stmt
+		for _, s := range list {
+			if v := accessHeader(s, info, written); v != "" {
+				out = append(out, &ast.ExprStmt{X: &ast.CallExpr{
+					Fun:  &ast.SelectorExpr{X: ast.NewIdent("verifrt"), Sel: ast.NewIdent("Enter")},
+					Args: []ast.Expr{&ast.BasicLit{Kind: token.STRING, Value: fmt.Sprintf("%q", "access:"+pkg+"."+v)}},
+				}})
+				n++
+			}
+			out = append(out, s)
+		}
+		return out
+	}
+	for _, d := range f.Decls {
+		fd, ok := d.(*ast.FuncDecl)
+		if !ok || fd.Body == nil || (fd.Recv == nil && fd.Name.Name == "init") {
+			continue
+		}
+		ast.Inspect(fd.Body, func(m ast.Node) bool {
+			switch x := m.(type) {
+			case *ast.BlockStmt:
+				x.List = fix(x.List)
+			case *ast.CaseClause:
+				x.Body = fix(x.Body)
+			case *ast.CommClause:
+				x.Body = fix(x.Body)
+			}
+			return true
+		})
+	}
+	return n
 }
 
 // packages whose every function gets a verifrt.Enter (scheduling point for concurrent
